@@ -34,7 +34,8 @@ def _expand_worker(args):
         st = {"cases": 0, "evals": 0, "nontrivial": 0, "viol": [], "samples": [], "status": Counter(),
               "outcomes": set(), "extra": Counter(), "dups": 0, "new": []}
         for (start, hist) in items:
-            for stmt in mod.alphabet(tier, start):
+            alpha = mod.alphabet_h(tier, start, hist) if hasattr(mod, "alphabet_h") else mod.alphabet(tier, start)
+            for stmt in alpha:
                 h2 = hist + [stmt]
                 case = mod.make_case(tier, start, h2)
                 rs = core.run_case(eng, case, timeout=getattr(mod, "TIMEOUT", 30.0))
